@@ -669,6 +669,23 @@ pub fn sweep(ctx: &Ctx, plan: &SweepPlan, rep: &mut Report, checker: &Checker) -
             "E2.k2", k2_skels, mini.clone(), vec![b'*', b'A', b'0', b'_'], core.clone(), vec![b'*', b'z', b'9', b'-'],
         )));
     }
+    // the real-world dictionary: registered variants, legacy aliases, grandfathered tags,
+    // extension keys/types, and every language / script / region of the bundled CLDR data
+    {
+        let mut words = dictionary_words();
+        if !plan.langid_only || true {
+            let lk = super::universe::load_likely(&ctx.repo);
+            words.extend(lk.scripts.iter().filter(|s| !s.is_empty()).cloned());
+            words.extend(lk.regions.iter().filter(|s| !s.is_empty()).cloned());
+            // languages: all of them in the thorough tier, every 4th in the quick tier
+            let step = if ctx.quick() { 4 } else { 1 };
+            words.extend(lk.langs.iter().filter(|s| !s.is_empty()).step_by(step).cloned());
+        }
+        words.sort();
+        words.dedup();
+        spaces.push(Box::new(ListSpace { label: "E4.dictionary".into(), items: dictionary_inputs(&words),
+            what: format!("{} real-world words (mc/data/words.txt + CLDR languages/scripts/regions) x 22 syntactic positions x 3 letter cases", words.len()) }));
+    }
     let mut tree_inputs = 0u64;
     let mut tree_nontrivial = 0u64;
     for sp in &spaces {
